@@ -20,6 +20,9 @@ func init() {
 		{Name: "string-allocated-before-check", Rule: "R5.2", Where: "(*bindata).UnmarshalBinary", Edits: []Edit{{"wiretypes.go", "\tif len(data) < length+2 {\n\t\treturn unmarshalErr(v, \"\", \"missing data\")\n\t}\n\tif length == 0 {\n\t\treturn nil\n\t}\n\t*v = make([]byte, length)\n", "\tif length == 0 {\n\t\treturn nil\n\t}\n\t*v = make([]byte, length)\n\tif len(data) < length+2 {\n\t\treturn unmarshalErr(v, \"\", \"missing data\")\n\t}\n"}}},
 		{Name: "get-loses-stickiness", Rule: "R5.0", Where: "(*buffer).get", Edits: []Edit{{"buffer.go", "func (b *buffer) get(v wireType) {\n\tif b.err != nil {\n\t\treturn\n\t}\n", "func (b *buffer) get(v wireType) {\n"}}},
 		{Name: "vbi-guard-dropped", Rule: "R5.1", Where: "(*vbint).ReadFrom", Edits: []Edit{{"wiretypes.go", "\t\tif multiplier > 128*128*128 {\n\t\t\treturn i, unmarshalErr(v, \"\", \"size exceeded\")\n\t\t}\n\t\tif encodedByte&128 == 0 {\n\t\t\tbreak\n\t\t}", "\t\tif encodedByte&128 == 0 {\n\t\t\tbreak\n\t\t}"}}},
+		{Name: "user-properties-clipped-before-each-append", Rule: "R5.4", Where: "appendUserProperty", Edits: []Edit{
+			{"userprop.go", "\t*p = append(*p, prop)", "\t*p = append(slices.Clip(*p), prop)"},
+			{"userprop.go", "import (\n", "import (\n\t\"slices\"\n"}}},
 		{Name: "decoder-takes-lock", Rule: "R5.3", Where: "blocking", Edits: []Edit{
 			{"packet.go", "func ReadPacket(r io.Reader) (ControlPacket, error) {\n", "var readMu sync.Mutex\n\nfunc ReadPacket(r io.Reader) (ControlPacket, error) {\n\treadMu.Lock()\n\tdefer readMu.Unlock()\n"},
 			{"packet.go", "import (\n", "import (\n\t\"sync\"\n"}}},
@@ -142,6 +145,7 @@ func checkC05(p *Prog, c *Check) {
 	c.Rule("R5.0", "lemmas about the sequential reader (same as C04 R4.0): once the error is set the guarded primitive is a no-op; otherwise it sets a non-nil error or advances the offset by width() within len(data)")
 	c.Rule("R5.1", "every loop on the decode path is a range/counted loop over a loop-invariant bound, a loop in which every cycle reads a value of width >= 1 through the guarded primitive and leaves on the sticky error, or a geometric/divisive counter loop with constant bound; length-bounded loops are not nested")
 	c.Rule("R5.2", "every allocation on the decode path has constant size, the declared frame size (bounded by L-vbi), or a size proven <= the length of the bytes present; every append adds a constant number of elements")
+	c.Rule("R5.4", "every library function called on the decode path is one of the modelled ones, whose work is proportional to its arguments (an unmodelled call — e.g. one that re-allocates a list per element — is undecided)")
 	c.Rule("R5.3", "no recursion and no blocking or concurrent primitive is reachable from the decoders")
 	c.Explanation = "Structural sufficient condition for 'work and memory proportional to the declared length': loops are classified from their SSA shape (cycles found as strongly connected components; 'on every cycle' means removing the block breaks all cycles); allocation sizes are compared with len(data) by the linear prover of C04. The quantitative constants (time per byte) are not decided."
 	c.Trusted = []string{"go/types + go/ssa (x/tools v0.29.0) faithful IR", "builtin copy/append/make cost is linear in the sizes involved"}
@@ -223,5 +227,37 @@ func checkC05(p *Prog, c *Check) {
 	c.Measured["allocations_checked"] = nalloc
 	c.Measured["appends_checked"] = nappend
 	ruleNoBlocking(p, c, "R5.3", scope)
+	// R5.4: library calls on the decode path are the modelled ones (work linear in their arguments)
+	nx, nbadx := 0, 0
+	for _, fn := range sortedFuncs(scope) {
+		k := 0
+		for _, b := range fn.Blocks {
+			for _, ins := range b.Instrs {
+				ci, ok := ins.(ssa.CallInstruction)
+				if !ok {
+					continue
+				}
+				sc := ci.Common().StaticCallee()
+				if sc == nil || sc.Blocks != nil || sc.Pkg == nil && sc.Synthetic != "" && !strings.Contains(sc.Synthetic, "instance") {
+					continue
+				}
+				if sc.Pkg != nil && sc.Pkg.Pkg == p.Pkg {
+					continue
+				}
+				name := fullName(sc)
+				nx++
+				_, writes := externWritesArg[name]
+				modelled := externPure[name] || fmtWriterFuncs[name] || writes || name == "io.ReadFull" || name == "io.ReadAtLeast" || strings.HasPrefix(name, "(encoding/binary.bigEndian).")
+				if !modelled {
+					k++
+					nbadx++
+					c.Unk("R5.4", fmt.Sprintf("%s#extcall%d", qname(fn), k), posOf(p, ins), "library function "+name+" has no cost model: the work it does per call is not known to be proportional to its arguments")
+				}
+			}
+		}
+	}
+	if nbadx == 0 {
+		c.OK("R5.4", "library calls", "-", fmt.Sprintf("all %d library call sites on the decode path are modelled (io.ReadFull, binary.BigEndian, fmt, …): work linear in their arguments", nx))
+	}
 	c.Floor("decode roots", len(roots.Decode), 16, "15 packet UnmarshalBinary + ReadPacket")
 }
